@@ -168,6 +168,8 @@ class SequencerMixin:
                 while True:
                     store.i = i
                     result = step.func(store, *step.args)
+                    if not self._seq_stopflag:
+                        sleep(step.waittime)
                     if self._seq_stopflag:
                         if result:
                             self._seq_stopped = f'stopped while {step.desc}'
@@ -181,7 +183,6 @@ class SequencerMixin:
                                 self.log.exception(e)
                                 raise
                         return
-                    sleep(step.waittime)
                     if not result:
                         break
                     i += 1
